@@ -88,3 +88,63 @@ def check_c08(tier):
          "the root `title` that schemars adds to a root schema is exempt (the document names components by key)"],
         time.time() - t0, len(findings.violations))
     return rc
+
+
+def check_c07(tier):
+    t0 = time.time()
+    vlib.build_harness()
+    findings = vlib.Findings("C07")
+    outdir = os.path.join(vlib.WORK, "doc")
+    os.makedirs(outdir, exist_ok=True)
+    path = os.path.join(outdir, "trace.ndjson")
+    p = subprocess.run([vlib.harness_bin("drive_doc"), path], env=dict(os.environ, VERIF_SEED=str(vlib.seed())),
+                       stdout=subprocess.PIPE, stderr=subprocess.PIPE, text=True, timeout=3000)
+    if p.returncode != 0:
+        raise vlib.ToolError("drive_doc failed: %s" % p.stderr[-2000:])
+    with open(path) as f:
+        lines = [x for x in f.read().split("\n") if x.strip()]
+    nreq = sum(1 for x in lines if '"ev":"doc_request"' in x)
+    ops = sorted({json.loads(x)["op"] for x in lines if '"ev":"doc_request"' in x})
+    omits = sum(1 for x in lines if '"ev":"doc_request"' in x and '"omitted":""' not in x)
+    states = 0
+    validated = 0
+    for it in range(12):
+        cur = path + ".v%d" % it
+        with open(cur, "w") as f:
+            f.write("\n".join(lines) + "\n")
+        tr = vlib.run_trace("C07-trace-%d" % it, "TraceDocTruth.tla", "TraceDocTruth.cfg", cur, heap="8g")
+        os.unlink(cur)
+        states += tr.states
+        if tr.accepted:
+            validated = sum(1 for x in lines if '"ev":"doc_request"' in x)
+            break
+        ev = json.loads(lines[tr.reject_line - 1])
+        n = ev.get("n")
+        reqline = next((json.loads(x) for x in lines if '"ev":"doc_request"' in x and '"n":"%s"' % n in x), {})
+        findings.add({"engine": "doc-trace", "kind": "unexplained:" + str(ev.get("ev")), "shape": ev.get("op", "?")},
+                     {"operation": ev.get("op"), "request": {k: reqline.get(k) for k in ("m", "target", "omitted", "has_body")},
+                      "response": {k: ev.get(k) for k in ("status", "ctype", "listed", "listed_as", "ctype_listed", "empty")},
+                      "tlc_diagnosis": tr.reject_event,
+                      "note": "DocTruth.tla: the server's behaviour for a request built from the document, or the response it "
+                              "sent, is not what the document says"})
+        ids = {json.loads(x).get("id") for x in lines if '"ev":"req_start"' in x and '"n":"%s"' % n in x}
+        lines = [x for x in lines if '"n":"%s"' % n not in x and not any(i and i in x for i in ids)]
+    rc = findings.report()
+    sample = next((json.loads(x) for x in lines if '"ev":"doc_request"' in x and "doc_job_submit" in x), None)
+    vlib.write_evidence(
+        "C07", tier, "exploration",
+        {"evaluations": nreq, "distinct_nontrivial": len(ops),
+         "rule": "an API corpus of %d operations (path/query parameters of several types, required and optional; JSON, "
+                 "URL-encoded and raw bodies; 200/201/202/204/303 responses, declared headers, a nullable response, a "
+                 "paginated response, HttpError and a custom error type) is served live; requests are built purely from "
+                 "the generated document (documented path, required parameters, bodies derived from the documented request "
+                 "schema, valid and invalid -- the specification decides validity), plus one request per omitted required "
+                 "parameter; every response is checked against what the document lists for its status; distinct = operations" % len(ops),
+         "samples": [{"op": sample["op"], "target": sample["target"], "has_body": sample["has_body"]}] if sample else ["none"],
+         "operations": ops, "requests_with_an_omitted_required_parameter": omits,
+         "requests_validated": validated, "tlc_states": states},
+        ["instance generation is boundary-driven, not exhaustive; `pattern` / `format` are not evaluated",
+         "bodies of non-JSON content types are sent as the canonical sample of the documented schema only",
+         "an omitted request *body* is not asserted either way (the property speaks of parameters)"],
+        time.time() - t0, len(findings.violations))
+    return rc
